@@ -213,6 +213,9 @@ impl Storage for ModelStore {
         keys: impl Iterator<Item = Key> + Send,
     ) -> Result<(), BulkMutationError<Self::Error>> {
         let keys: Vec<Key> = keys.collect();
+        if std::env::var("VP_DEBUG_STORE").is_ok() {
+            eprintln!("STORE remove_tombstones({keyspace}, {:?}) at {:?}", keys, tokio::time::Instant::now());
+        }
         self.pre_delay().await;
         let gate = self.gate().map_err(BulkMutationError::empty_with_error)?;
         let (keep, fail, park): (Box<dyn Fn(usize) -> bool + Send>, bool, bool) = match gate {
@@ -323,6 +326,9 @@ impl Storage for ModelStore {
         documents: impl Iterator<Item = DocumentMetadata> + Send,
     ) -> Result<(), BulkMutationError<Self::Error>> {
         let docs: Vec<DocumentMetadata> = documents.collect();
+        if std::env::var("VP_DEBUG_STORE").is_ok() {
+            eprintln!("STORE mark_many_as_tombstone({keyspace}, {:?}) at {:?}", docs.iter().map(|d| (d.id, d.last_updated.to_string())).collect::<Vec<_>>(), tokio::time::Instant::now());
+        }
         self.pre_delay().await;
         let gate = self.gate().map_err(BulkMutationError::empty_with_error)?;
         let (keep, fail, park): (Box<dyn Fn(usize) -> bool + Send>, bool, bool) = match gate {
